@@ -314,7 +314,7 @@ def run(ctx):
                 'option is on')
     cases = corpus()
     ctx.count('corpus', len(cases))
-    nrand = 650 if quick else 20000
+    nrand = 650 if quick else 16000
     rand = [gen_case(ctx.rng, quick) for _ in range(nrand)]
     bnd = boundary_cases(ctx.rng, cases + rand[:60 if quick else 1500])
     ctx.count('boundary_alpha_eq_p', len(bnd))
